@@ -41,6 +41,7 @@ TEXTURES = ["uniform", "nonuniform", "unsorted", "mixed"]
 M = Monitor(
     pid="C19",
     setup=_setup,
+    decoy=True,
     title="Domain equalisation interpolates onto the exact overlap at coarsest resolution",
     rule=("cases: 2-4 domains with layout {identical, same range, nested, partially overlapping, touching at one "
           "point, disjoint, overlap smaller than the coarsest step, overlap an exact multiple / half-multiple of the "
